@@ -701,6 +701,12 @@ def form_specs(draw, profile=None):
     }
     if pr.get("tp"):
         spec["tp"] = True
+    if (len(elements) >= 2 and set(int_measures) == {"dx"} and not pr.get("tp") and qcoef is None and prob(draw, pr.get("p_mesh2", 0.0))
+            and not any(E[0] in ("real", "quad", "cquad") for E in elements)):
+        # some function spaces on a second mesh object of the same cell type (codimension-0 sub-mesh); integration over `mesh`
+        k = draw(st.integers(1, len(elements) - 1))
+        spec["mesh2"] = sorted(draw(st.permutations(list(range(len(elements)))))[:k])
+        tags.append("second-mesh")
     g = G(draw, spec, pr)
     for j in range(nint):
         m = int_measures[j]
